@@ -512,6 +512,13 @@ def gen_program(rng, opts=None):
                                 "shadow_of": b["name"]})
                 m["shadow"] = {b["name"]: "%s@%d" % (b["name"], k)}
                 k += 1
+    if o.get("struct_signals", True):
+        # some unsigned signals are declared with an aggregate shape whose first member has a *computed* display format (a
+        # Gray-coded count shown decoded): the program uses the underlying Signal as before; the backend additionally emits the
+        # decoded member in every module that names the signal
+        for sg in sigs:
+            if not sg["signed"] and sg["width"] >= 2 and not sg.get("late") and r.random() < 0.12:
+                sg["struct"] = r.randint(1, sg["width"] - 1)
     return {"domains": domains, "signals": sigs, "top": mods[0]}
 
 
@@ -651,6 +658,38 @@ class Built:
     pass
 
 
+def _gray_struct(k, rest):
+    """StructLayout({"count": Gray(k), "rest": rest}): `count` is displayed decoded (ShapeCastable.format() returning a computed
+    expression, the documented extension point)."""
+    from amaranth.hdl import ShapeCastable, Value, Const, Format, unsigned
+    from amaranth.lib import data
+
+    class Gray(ShapeCastable):
+        def __init__(self, width):
+            self.width = width
+
+        def as_shape(self):
+            return unsigned(self.width)
+
+        def const(self, init):
+            return Const(init or 0, self.width)
+
+        def from_bits(self, bits):
+            return bits
+
+        def __call__(self, value):
+            return value
+
+        def format(self, obj, spec):
+            value = Value.cast(obj)
+            binary = value
+            for shift in range(1, self.width):
+                binary = binary ^ (value >> shift)
+            return Format("{:" + spec + "}", binary[:self.width])
+
+    return data.StructLayout({"count": Gray(k), "rest": rest})
+
+
 def build(prog):
     """-> Built with .top (Elaboratable), .sigs (list of Signal), .ongoing {(fsm id, state): Signal}"""
     from amaranth.hdl import (Module, Signal, Const, Cat, Mux, Array, signed, unsigned, Elaboratable, ResetInserter,
@@ -662,6 +701,13 @@ def build(prog):
                      init=(s["init"] - (1 << s["width"]) if (s["signed"] and s["width"] and s["init"] >> (s["width"] - 1))
                            else s["init"]),
                      reset_less=s["reset_less"]) for s in prog["signals"]]
+    for i_, s_ in enumerate(prog["signals"]):
+        if s_.get("struct"):
+            k_ = s_["struct"]
+            view_ = Signal(_gray_struct(k_, s_["width"] - k_), name=s_["name"], reset_less=s_["reset_less"],
+                           init={"count": s_["init"] & ((1 << k_) - 1), "rest": s_["init"] >> k_})
+            B.sigs[i_] = view_.as_value()
+            assert B.sigs[i_].init == s_["init"] and len(B.sigs[i_]) == s_["width"]
     B.ongoing = {}
     from amaranth.hdl import ClockDomain
     B.shadow_cds = {d["name"]: ClockDomain(d["shadow_of"], clk_edge=d["edge"], async_reset=d["async_reset"], reset_less=d["reset_less"])
